@@ -230,7 +230,10 @@ namespace fastscapelib
              */
             basin_graph_type& get_basin_graph(const graph_impl_type& graph_impl)
             {
-                if (!m_basin_graph_ptr)
+                // (re)create the basin graph if the basin method of the
+                // operator has been changed since the last call
+                if (!m_basin_graph_ptr
+                    || m_basin_graph_ptr->basin_method() != this->m_op_ptr->m_basin_method)
                 {
                     m_basin_graph_ptr = std::make_unique<basin_graph_type>(
                         graph_impl, this->m_op_ptr->m_basin_method);
